@@ -21,7 +21,7 @@ DECIDING = ["C11.assignment"]
 RULE = ("set-ups = (full grid with n_b in {1,4,8,17}, n_o in {4,12,25}, n_t in {2,3,4} incl. non-equidistant radii; second molecule with three "
         "distinct principal moments: non-planar 4-8 atoms / planar (water in both atom orders, random planar) / input/H2O.gro; metric "
         "cartesian_grid True/False; outliers included or not; trajectory = continuous random placements (not grid points, some beyond the "
-        "outer boundary, one long trajectory of 2200 frames per run and more in thorough) or the grid's own pseudotrajectory, some assigned twice from the same array). "
+        "outer boundary, equal-sized grids with coinciding end points but different interior radii used in one process, one long trajectory of 2200 frames per run and more in thorough) or the grid's own pseudotrajectory, some assigned twice from the same array). "
         "Every frame is judged. Non-trivial = set-up with n_b>=4 and >=20 unambiguous frames; distinct by set-up digest")
 ASSUMPTIONS = ["placements whose best and second-best candidate differ by < 1e-3 (A for radii, cosine for directions, |q.q_b| for rotations) or that lie "
                "within 1e-3 A of the outer boundary are ambiguous and skipped (counted)",
@@ -220,12 +220,14 @@ def make_second_molecule(rng, nprng, kind):
     raise RuntimeError("could not generate a molecule with three distinct moments")
 
 
-def drive(tr, pts, io, d, rng, nprng, tier, idx, cache):
+def drive(tr, pts, io, d, rng, nprng, tier, idx, cache, force=None):
     from molgri.space.fullgrid import FullGrid
     n_b = rng.choice([1, 4, 8, 17])
     n_o = rng.choice([4, 12, 25])
     t = rng.choice(["[0.2, 0.35]", "[0.2, 0.3, 0.45]", "[0.2, 0.35, 0.45]", "[0.15, 0.25, 0.35, 0.45]", "linspace(0.2, 0.5, 3)", "[1.0, 1.5, 2.5]", "[0.4, 1.2, 3.0]"])
     balg, oalg = rng.choice(["cube4D", "randomQ"]), rng.choice(["ico", "cube3D", "randomS"])
+    if force:
+        n_b, n_o, t, balg, oalg = force["n_b"], force["n_o"], force["t"], force["balg"], force["oalg"]
     key = (balg, n_b, oalg, n_o, t)
     if key not in cache:
         fg = FullGrid(f"{balg}_{n_b}" if n_b > 1 else "1", f"{oalg}_{n_o}", t)
@@ -332,6 +334,11 @@ def run_shard(spec):
     try:
         for it in range(spec["count"]):
             drive(tr, pts, io, d, rng, nprng, spec["tier"], it, cache)
+        if spec["rseed"] % 1000 == 4:
+            # history: two grids of equal size whose first and last grid points coincide but whose interior radii differ, used one after the
+            # other in the same process (nothing learnt about the first grid may leak into the second)
+            for t in ("[0.2, 0.3, 0.5]", "[0.2, 0.4, 0.5]", "[0.2, 0.3, 0.5]"):
+                drive(tr, pts, io, d, rng, nprng, spec["tier"], 99, cache, force={"n_b": 4, "n_o": 12, "t": t, "balg": "cube4D", "oalg": "ico"})
     finally:
         shutil.rmtree(d, ignore_errors=True)
 
